@@ -860,7 +860,7 @@ func (fr *frame) visit(instr ssa.Instruction) bool {
 				}
 			}
 		}
-		if bt, isB := et.Underlying().(*types.Basic); isB && bt.Kind() == types.Uint8 && !ln.IsConst() && cp == ln {
+		if bt, isB := et.Underlying().(*types.Basic); isB && bt.Kind() == types.Uint8 && !ln.IsConst() && cp == ln && isReadBuffer(x) {
 			// a byte buffer of symbolic size (read buffers sized by a length prefix): a lazily
 			// filled view; io.ReadFull on a modelled reader gives it its content
 			ph := &Str{segs: []Seg{{sym: &SymStr{Len: ln}}}}
@@ -1427,4 +1427,21 @@ func (in *Interp) lookupInverse(s *Str, kind string) (invRec, bool) {
 		}
 	}
 	return invRec{}, false
+}
+
+// isReadBuffer: the slice made here is handed directly to io.ReadFull (a read
+// buffer sized by a length prefix).
+func isReadBuffer(x *ssa.MakeSlice) bool {
+	refs := x.Referrers()
+	if refs == nil {
+		return false
+	}
+	for _, r := range *refs {
+		if c, ok := r.(*ssa.Call); ok {
+			if f := c.Call.StaticCallee(); f != nil && f.String() == "io.ReadFull" && len(c.Call.Args) == 2 && c.Call.Args[1] == ssa.Value(x) {
+				return true
+			}
+		}
+	}
+	return false
 }
